@@ -258,7 +258,8 @@ def run(chk):
     for op in ("query", "mutation"):
         behs = c08.generate(chk, op, 3)
         rng.shuffle(behs)
-        behs = behs[:1500 if chk.quick else 12000]
+        lob = [b for b in behs[1500 if chk.quick else 12000:] if any(x["out"] == "lobj" for x in b["nodes"])]
+        behs = behs[:1500 if chk.quick else 12000] + lob[:500 if chk.quick else 4000]      # (lists of objects: one field node, several paths)
         if not chk.quick:
             behs += c08.generate(chk, op, 5, simulate=4000, depth=26, label="GqlSched -simulate %s nodes<=5" % op)[:6000]
         c08.decorate(behs, rng)
